@@ -91,4 +91,17 @@ VF_E CH const* sv_cend(SV const& h) { return h.cend(); }
 VF_E CH const* sv_rbegin_base(SV const& h) { return h.rbegin().base(); }
 VF_E CH const* sv_rend_base(SV const& h) { return h.rend().base(); }
 VF_E size_type sv_npos() { return SV::npos; }
+
+// ---- contract mode (contracts.spec names the char instantiation): make sure it is lowered in every variant
+#if VF_CT != 0
+using CSV = etl::string_view;
+VF_E size_type u_find_c(CSV const& h, char c, size_type pos) { return h.find(c, pos); }
+VF_E size_type u_rfind_c(CSV const& h, char c, size_type pos) { return h.rfind(c, pos); }
+VF_E size_type u_find_first_of_c(CSV const& h, char c, size_type pos) { return h.find_first_of(c, pos); }
+VF_E size_type u_find_last_of_c(CSV const& h, char c, size_type pos) { return h.find_last_of(c, pos); }
+VF_E size_type u_find_first_not_of_c(CSV const& h, char c, size_type pos) { return h.find_first_not_of(c, pos); }
+VF_E size_type u_find_last_not_of_c(CSV const& h, char c, size_type pos) { return h.find_last_not_of(c, pos); }
+VF_E size_type u_find_first_of_v(CSV const& h, CSV const& n, size_type pos) { return h.find_first_of(n, pos); }
+VF_E size_type u_find_first_not_of_v(CSV const& h, CSV const& n, size_type pos) { return h.find_first_not_of(n, pos); }
+#endif
 }
